@@ -286,34 +286,51 @@ func (i *Interpreter) QueryInteractive(queryString string) error {
 }
 
 // Define adds rule definitions the interpreter's state.
+// A definition that is rejected leaves the previous interactive definitions in place.
 func (i *Interpreter) Define(clauseText string) error {
+	saved := i.buffer
+	preds, err := i.defineBuffer(saved + clauseText)
+	if err != nil {
+		// defineBuffer may already have replaced the interactive fragment; restore it.
+		i.resetInteractiveDefs("")
+		if saved != "" {
+			if _, rerr := i.defineBuffer(saved); rerr != nil {
+				return fmt.Errorf("%v (restoring the previous definitions failed: %v)", err, rerr)
+			}
+		}
+		return err
+	}
+	fmt.Fprintf(i.out, "defined %s.\n", preds)
+	return nil
+}
+
+// defineBuffer replaces the interactive definitions by the given buffer contents.
+func (i *Interpreter) defineBuffer(buffer string) ([]ast.PredicateSym, error) {
 	// TODO: A nice idea would be to work with the parsed form,
 	// like supporting removal of a particular clause. This would
 	// require retracting the associated facts from the store, though,
 	// which is currently not supported.
-	buffer := i.buffer + clauseText
 	unit, err := parse.Unit(strings.NewReader(buffer))
 	if err != nil {
-		return fmt.Errorf("parsing failed: %v", err)
+		return nil, fmt.Errorf("parsing failed: %v", err)
 	}
 	i.resetInteractiveDefs(buffer)
 	programInfo, err := analysis.AnalyzeOneUnit(unit, i.knownPredicates)
 	if err != nil {
-		return fmt.Errorf("analysis failed: %v", err)
+		return nil, fmt.Errorf("analysis failed: %v", err)
 	}
 	i.pushSourceFragment(interactivePath, []parse.SourceUnit{unit}, programInfo)
 	// We run evaluation every time a line is added. Alternatively, we could
 	// let the user control when to evaluate rules.
 	err = i.evalProgram(programInfo)
 	if err != nil {
-		return fmt.Errorf("evaluation failed: %v", err)
+		return nil, fmt.Errorf("evaluation failed: %v", err)
 	}
 	var preds []ast.PredicateSym
 	for sym := range programInfo.Decls {
 		preds = append(preds, sym)
 	}
-	fmt.Fprintf(i.out, "defined %s.\n", preds)
-	return nil
+	return preds, nil
 }
 
 // Pop resets the interpreter's state to what it was before the last change.
